@@ -785,7 +785,8 @@ func checkC18(r *Run) {
 	}
 	// the temporal faults come in two flavours: neither type configured, or only the other one
 	kinds := []string{"time-without-time_type", "duration-without-duration_type", "map-with-int32-key",
-		"time-without-time_type/duration_type-set", "duration-without-duration_type/time_type-set"}
+		"time-without-time_type/duration_type-set", "duration-without-duration_type/time_type-set",
+		"map-with-sfixed32-key", "map-with-fixed64-key", "map-with-bool-key"}
 	var all, compiled []*pipeline.Case
 	type fcase struct {
 		base, faulted, repaired *pipeline.Case
@@ -823,7 +824,7 @@ func checkC18(r *Run) {
 		all = append(all, base)
 		// one fault-free run per configuration flavour
 		bases := map[string]*pipeline.Case{"": base}
-		for _, kk := range kinds[3:] {
+		for _, kk := range kinds[3:5] {
 			curKind = kk
 			e := m()
 			if len(e.Cfg.Types) == 1 && len(e.File.Messages) > 1 {
@@ -874,8 +875,18 @@ func checkC18(r *Run) {
 						f = descgen.F(fname, descgen.TS())
 					case "duration-without-duration_type", "duration-without-duration_type/time_type-set":
 						f = descgen.F(fname, descgen.Dur())
+					case "map-with-sfixed32-key":
+						f = descgen.F(fname, descgen.MapOf(), descgen.KeyT(ir.Sfixed32))
+					case "map-with-fixed64-key":
+						f = descgen.F(fname, descgen.MapOf(), descgen.KeyT(ir.Fixed64))
+					case "map-with-bool-key":
+						f = descgen.F(fname, descgen.MapOf(), descgen.KeyT(ir.Bool))
 					default:
 						f = descgen.F(fname, descgen.MapOf(), descgen.KeyT(ir.Int32))
+					}
+					if fname == "zz_unmappable" {
+						// hidden from JSON is not hidden from the generator
+						descgen.JSON("-")(f)
 					}
 					f.Number = 900
 					msg.Fields = append(msg.Fields, f)
